@@ -1,5 +1,7 @@
 import CwPlus.Props.C07
 import CwPlus.Props.C17
+import CwPlus.Lemmas.NativeBalanceSub
+import CwPlus.Lemmas.Paginate
 /-!
 # C08 — cw1-subkeys: a subkey never spends beyond its unexpired native allowance
 
@@ -657,6 +659,666 @@ theorem decrease_saturates_exact {s s' : Cw1Subkeys.State} {blk : Block} {snd : 
     simp only [held, bal, ho, balOf]
     exact subSaturating_exact (hw _ o ho) hb
 
+/-! ## Liveness: a covered spend succeeds
+
+Everything above is of the form "if the call succeeds then …"; a model in which a subkey's `Execute` always fails
+would satisfy it.  The theorems of this section give the exact success condition in terms of amounts
+(`execute_ok_iff_sem`) and the positive statement `covered_spend_succeeds`. -/
+
+/-- A non-admin's successful `Execute` is the permission loop. -/
+theorem execute_nonadmin_checkMsgs {s s' : Cw1Subkeys.State} {blk : Block} {snd : Addr} {msgs out : List CosmosMsg}
+    (hna : s.cfg.isAdmin snd = false) (h : Cw1Subkeys.execute s blk snd (.execute msgs) = .ok (s', out)) :
+    Cw1Subkeys.checkMsgs s blk snd msgs = .ok s' := by
+  simp [Cw1Subkeys.execute, Cw1Subkeys.execExecute, hna] at h
+  obtain ⟨s1, h1, rfl, _⟩ := h
+  exact h1
+
+/-- Some message of the list is a bank send. -/
+def hasBankSend (msgs : List CosmosMsg) : Prop := ∃ to cs, CosmosMsg.bankSend to cs ∈ msgs
+
+theorem sentCoins_cons (m : CosmosMsg) (ms : List CosmosMsg) : sentCoins (m :: ms) = msgCoins m ++ sentCoins ms := rfl
+
+theorem sent_cons (m : CosmosMsg) (ms : List CosmosMsg) (d : String) :
+    sent (m :: ms) d = total (msgCoins m) d + sent ms d := by
+  simp only [sent, sentCoins, total_append]
+
+theorem msgCoins_of_not_bank {m : CosmosMsg} (h : C07.isBankSend m = false) : msgCoins m = [] := by
+  cases m <;> simp_all [C07.isBankSend, msgCoins]
+
+theorem hasBankSend_cons_of_not_bank {m : CosmosMsg} {ms : List CosmosMsg} (h : C07.isBankSend m = false) :
+    hasBankSend (m :: ms) ↔ hasBankSend ms := by
+  constructor
+  · rintro ⟨to, cs, hm⟩
+    rcases List.mem_cons.mp hm with rfl | hm
+    · simp [C07.isBankSend] at h
+    · exact ⟨to, cs, hm⟩
+  · rintro ⟨to, cs, hm⟩; exact ⟨to, cs, List.mem_cons_of_mem _ hm⟩
+
+/-- Coverage in terms of amounts.  If the allowance's balance has unique denoms (true of every reachable state,
+`wf_run`) and every coin sent is positive, the threaded coverage check of `Execute` accepts a list exactly when
+(1) every message is of a kind the caller's permission record allows, (2) if the list contains a bank send, the
+allowance exists and is unexpired, and (3) for every denomination the bank sends of the list together do not exceed
+what the allowance holds. -/
+theorem coveredFrom_iff_sem {perm : Option Permissions} {blk : Block} {al : Option Allowance} {msgs : List CosmosMsg}
+    (hu : ∀ a, al = some a → NativeBalance.UniqueDenoms a.balance)
+    (hpos : ∀ c ∈ sentCoins msgs, 0 < c.2) :
+    coveredFrom perm blk al msgs = true ↔
+      (∀ m ∈ msgs, C07.permOk perm m = true) ∧
+      (hasBankSend msgs → ∃ a, al = some a ∧ a.expires.isExpired blk = false) ∧
+      ∀ d, sent msgs d ≤ total (balOf al) d := by
+  induction msgs generalizing al with
+  | nil =>
+    simp only [coveredFrom, true_iff]
+    refine ⟨fun m hm => (by cases hm), ?_, fun d => (by simp [sent, sentCoins])⟩
+    rintro ⟨_, _, h⟩; cases h
+  | cons m ms ih =>
+    have hposms : ∀ c ∈ sentCoins ms, 0 < c.2 := fun c hc => hpos c (by simp [sentCoins_cons, hc])
+    cases hb : C07.isBankSend m with
+    | false =>
+      simp only [coveredFrom, C07.covers_of_not_bank perm blk al hb, hasBankSend_cons_of_not_bank hb,
+        List.mem_cons, forall_eq_or_imp]
+      have hs : ∀ d, sent (m :: ms) d = sent ms d := fun d => by
+        rw [sent_cons, msgCoins_of_not_bank hb]; simp
+      simp only [hs]
+      cases hp : C07.permOk perm m
+      · simp
+      · simp only [if_true, true_and]
+        exact ih hu hposms
+    | true =>
+      cases m with
+      | bankSend to cs =>
+        have hposcs : ∀ c ∈ cs, 0 < c.2 := fun c hc => hpos c (by simp [sentCoins_cons, msgCoins, hc])
+        have hhas : hasBankSend (CosmosMsg.bankSend to cs :: ms) := ⟨to, cs, by simp⟩
+        cases al with
+        | none =>
+          simp only [coveredFrom, covers, Bool.false_eq_true, false_iff]
+          rintro ⟨_, h2, _⟩
+          obtain ⟨a, ha, _⟩ := h2 hhas
+          cases ha
+        | some a =>
+          cases hx : a.expires.isExpired blk with
+          | true =>
+            simp only [coveredFrom, covers, hx, if_true, Bool.false_eq_true, false_iff]
+            rintro ⟨_, h2, _⟩
+            obtain ⟨a', ha', hx'⟩ := h2 hhas
+            cases ha'; rw [hx] at hx'; cases hx'
+          | false =>
+            have hlive := NativeBalance.subCoins_isOk_iff (hu a rfl) hposcs
+            cases hsub : a.balance.subCoins cs with
+            | error e =>
+              simp only [coveredFrom, covers, hx, hsub, Bool.false_eq_true, if_false, false_iff]
+              rintro ⟨_, _, h3⟩
+              rw [hsub] at hlive
+              apply (by simpa [Res.isOk] using hlive : ¬ ∀ d, NativeBalance.coinsTotal cs d ≤ total a.balance d)
+              intro d
+              have := h3 d
+              rw [sent_cons] at this
+              simp only [msgCoins, balOf] at this
+              simp only [NativeBalance.coinsTotal]; omega
+            | ok b =>
+              have htot := fun d => NativeBalance.total_subCoins hsub d
+              have hub : ∀ a', some ({ a with balance := b } : Allowance) = some a' → NativeBalance.UniqueDenoms a'.balance := by
+                intro a' ha'; cases ha'; exact NativeBalance.unique_subCoins (hu a rfl) hsub
+              have hih := ih (al := some { a with balance := b }) hub hposms
+              simp only [coveredFrom, covers, hx, hsub, Bool.false_eq_true, if_false]
+              rw [hih]
+              simp only [List.mem_cons, forall_eq_or_imp, C07.permOk, true_and, balOf]
+              constructor
+              · rintro ⟨h1, _, h3⟩
+                refine ⟨h1, fun _ => ⟨a, rfl, hx⟩, fun d => ?_⟩
+                have := h3 d; have := htot d
+                rw [sent_cons]; simp only [msgCoins, NativeBalance.coinsTotal] at *; omega
+              · rintro ⟨h1, _, h3⟩
+                refine ⟨h1, fun _ => ⟨_, rfl, hx⟩, fun d => ?_⟩
+                have := h3 d; have := htot d
+                rw [sent_cons] at *; simp only [msgCoins, NativeBalance.coinsTotal] at *; omega
+      | _ => simp [C07.isBankSend] at hb
+
+/-- C08 / C07, exact success condition of a subkey's `Execute` in terms of amounts: on a well-formed state
+(`wf_run`: every reachable one) a non-admin's list of messages whose coins are all positive is accepted **exactly
+when** every message kind is allowed by the caller's permission record, the allowance exists and is unexpired if the
+list contains a bank send, and for every denomination the bank sends of the list together stay within what the
+allowance holds.  Right to left this is the liveness half that `spend_exact` / `spend_fails_whole` lack. -/
+theorem execute_ok_iff_sem {s : Cw1Subkeys.State} {blk : Block} {snd : Addr} {msgs : List CosmosMsg}
+    (hw : WF s) (hna : s.cfg.isAdmin snd = false) (hpos : ∀ c ∈ sentCoins msgs, 0 < c.2) :
+    (Cw1Subkeys.execute s blk snd (.execute msgs)).isOk = true ↔
+      (∀ m ∈ msgs, C07.permOk (s.permissions.get? snd) m = true) ∧
+      (hasBankSend msgs → ∃ a, s.allowances.get? snd = some a ∧ a.expires.isExpired blk = false) ∧
+      ∀ d, sent msgs d ≤ held s snd d := by
+  rw [C07.Sk.execute_ok_iff, coveredSeq, coveredFrom_iff_sem (fun a ha => hw snd a ha) hpos]
+  simp [hna, held, bal]
+
+/-- C08, liveness: a subkey with an unexpired allowance can spend — any list of bank sends of positive coins that,
+denomination by denomination, stays within the allowance is accepted, relayed unchanged, and charged exactly. -/
+theorem covered_spend_succeeds {s : Cw1Subkeys.State} {blk : Block} {snd : Addr} {msgs : List CosmosMsg} {a : Allowance}
+    (hw : WF s) (hna : s.cfg.isAdmin snd = false)
+    (ha : s.allowances.get? snd = some a) (hx : a.expires.isExpired blk = false)
+    (hbank : ∀ m ∈ msgs, C07.isBankSend m = true)
+    (hpos : ∀ c ∈ sentCoins msgs, 0 < c.2) (hle : ∀ d, sent msgs d ≤ held s snd d) :
+    ∃ s', Cw1Subkeys.execute s blk snd (.execute msgs) = .ok (s', msgs) ∧
+      (∀ d, held s' snd d + sent msgs d = held s snd d) ∧
+      (s'.allowances.get? snd).map (·.expires) = some a.expires := by
+  have hok : (Cw1Subkeys.execute s blk snd (.execute msgs)).isOk = true := by
+    rw [execute_ok_iff_sem hw hna hpos]
+    refine ⟨fun m hm => ?_, fun _ => ⟨a, ha, hx⟩, hle⟩
+    have := hbank m hm
+    cases m <;> simp_all [C07.isBankSend, C07.permOk]
+  cases hr : Cw1Subkeys.execute s blk snd (.execute msgs) with
+  | error e => rw [hr] at hok; cases hok
+  | ok r =>
+    obtain ⟨s', out⟩ := r
+    have h1 := execute_nonadmin_checkMsgs hna hr
+    have hout := C07.Sk.relay_exact hr
+    subst hout
+    refine ⟨s', rfl, fun d => spend_exact hna hr d, ?_⟩
+    rw [(checkMsgs_total h1).2.1, ha]; rfl
+
+/-- The mixed form: bank sends within the allowance interleaved with staking / distribution messages the permission
+record allows are accepted as well. -/
+theorem covered_mixed_succeeds {s : Cw1Subkeys.State} {blk : Block} {snd : Addr} {msgs : List CosmosMsg} {a : Allowance}
+    (hw : WF s) (hna : s.cfg.isAdmin snd = false)
+    (ha : s.allowances.get? snd = some a) (hx : a.expires.isExpired blk = false)
+    (hperm : ∀ m ∈ msgs, C07.permOk (s.permissions.get? snd) m = true)
+    (hpos : ∀ c ∈ sentCoins msgs, 0 < c.2) (hle : ∀ d, sent msgs d ≤ held s snd d) :
+    ∃ s', Cw1Subkeys.execute s blk snd (.execute msgs) = .ok (s', msgs) ∧
+      ∀ d, held s' snd d + sent msgs d = held s snd d := by
+  have hok : (Cw1Subkeys.execute s blk snd (.execute msgs)).isOk = true :=
+    (execute_ok_iff_sem hw hna hpos).mpr ⟨hperm, fun _ => ⟨a, ha, hx⟩, hle⟩
+  cases hr : Cw1Subkeys.execute s blk snd (.execute msgs) with
+  | error e => rw [hr] at hok; cases hok
+  | ok r =>
+    obtain ⟨s', out⟩ := r
+    have hout := C07.Sk.relay_exact hr
+    subst hout
+    exact ⟨s', rfl, fun d => spend_exact hna hr d⟩
+
+/-! ## Own spending only lowers -/
+
+/-- C08 / C17, "own spending": whatever list a caller submits with `Execute` (admin or not, succeeding or not), its
+own stored allowance does not grow in any denomination, keeps its expiry, and is neither created nor deleted. -/
+theorem own_spend_only_lowers (s : Cw1Subkeys.State) (blk : Block) (snd : Addr) (msgs : List CosmosMsg) :
+    (∀ d, held (Cw1Subkeys.step s blk snd (.execute msgs)) snd d ≤ held s snd d) ∧
+    ((Cw1Subkeys.step s blk snd (.execute msgs)).allowances.get? snd).map (·.expires)
+      = (s.allowances.get? snd).map (·.expires) ∧
+    ((Cw1Subkeys.step s blk snd (.execute msgs)).allowances.get? snd).isSome = (s.allowances.get? snd).isSome := by
+  have key : (∀ d, held (Cw1Subkeys.step s blk snd (.execute msgs)) snd d ≤ held s snd d) ∧
+      ((Cw1Subkeys.step s blk snd (.execute msgs)).allowances.get? snd).map (·.expires)
+        = (s.allowances.get? snd).map (·.expires) := by
+    unfold Cw1Subkeys.step
+    split
+    · rename_i s' out he
+      cases ha : s.cfg.isAdmin snd with
+      | true => rw [C07.Sk.admin_execute_state ha he]; exact ⟨fun _ => Nat.le_refl _, rfl⟩
+      | false =>
+        obtain ⟨ht, hexp, _⟩ := checkMsgs_total (execute_nonadmin_checkMsgs ha he)
+        exact ⟨fun d => by have := ht d; omega, hexp⟩
+    · exact ⟨fun _ => Nat.le_refl _, rfl⟩
+  refine ⟨key.1, key.2, ?_⟩
+  have := congrArg Option.isSome key.2
+  simpa using this
+
+/-! ## Exact effect and exact success condition of `IncreaseAllowance` / `DecreaseAllowance` -/
+
+/-- The expiry an increase builds on: the stored one, `Never` without a stored allowance. -/
+def prevExpires (old : Option Allowance) : Expiration :=
+  match old with
+  | some o => o.expires
+  | none => .never
+
+/-- The expiry after an increase: the submitted one, else the stored one (which then is unexpired). -/
+theorem incFn_expires {blk : Block} {c : Coin} {e : Option Expiration} {old : Option Allowance} {a : Allowance}
+    (h : incFn blk c e old = .ok a) : a.expires = e.getD (prevExpires old) := by
+  unfold incFn at h
+  simp only [Res.bind_ok, Res.pure_ok] at h
+  obtain ⟨ex, hex, b, hb, rfl⟩ := h
+  cases e with
+  | some e' => simp at hex; obtain ⟨_, rfl⟩ := hex; rfl
+  | none =>
+    simp at hex
+    obtain ⟨h1, rfl⟩ := hex
+    cases old with
+    | none => rfl
+    | some o => simp at h1; simp [h1, prevExpires]
+
+/-- `add` fails only on `u128` overflow of the coin it adds to. -/
+theorem add_isOk_iff (b : NativeBalance) (c : Coin) :
+    (NativeBalance.add b c).isOk = true ↔ ∀ held, NativeBalance.find? b c.1 = some held → held + c.2 ≤ U128_MAX := by
+  unfold NativeBalance.add
+  cases hf : NativeBalance.find? b c.1 with
+  | none => simp [Res.isOk, pure, Except.pure]
+  | some held =>
+    by_cases hle : held + c.2 ≤ U128_MAX
+    · simp [addU128, hle, Res.isOk, bind, Except.bind, pure, Except.pure]
+    · simp [addU128, hle, Res.isOk, bind, Except.bind]
+
+/-- The balance an increase adds to is the live part of the stored one. -/
+theorem incFn_base (blk : Block) (old : Option Allowance) :
+    (match old with
+      | some a => if a.expires.isExpired blk = true then Allowance.default else a
+      | none => Allowance.default).balance = liveBal blk old := by
+  cases old with
+  | none => rfl
+  | some o => by_cases hx : o.expires.isExpired blk = true <;> simp [hx, liveBal, Allowance.default]
+
+/-- Exactly when the closure of `IncreaseAllowance` succeeds: the submitted expiry — or, without one, the stored
+expiry — is not yet reached, and the addition does not overflow `u128`. -/
+theorem incFn_isOk_iff (blk : Block) (c : Coin) (e : Option Expiration) (old : Option Allowance) :
+    (incFn blk c e old).isOk = true ↔
+      (e.getD (prevExpires old)).isExpired blk = false ∧
+      ∀ held, NativeBalance.find? (liveBal blk old) c.1 = some held → held + c.2 ≤ U128_MAX := by
+  rw [← add_isOk_iff, NativeBalance.isOk_iff_exists, NativeBalance.isOk_iff_exists, ← incFn_base]
+  unfold incFn
+  simp only [Res.bind_ok, Res.pure_ok]
+  constructor
+  · rintro ⟨a, ex, hex, b, hb, rfl⟩
+    refine ⟨?_, b, hb⟩
+    cases e with
+    | some e' => simp at hex; simpa using hex.1
+    | none =>
+      simp at hex
+      obtain ⟨h1, _⟩ := hex
+      cases old <;> simpa [prevExpires] using h1
+  · rintro ⟨hx, b, hb⟩
+    cases e with
+    | some e' =>
+      simp at hx
+      exact ⟨_, e', by simp [hx], b, hb, rfl⟩
+    | none =>
+      simp at hx
+      cases old with
+      | none => exact ⟨_, .never, by simp [Expiration.isExpired, Allowance.default], b, hb, rfl⟩
+      | some o =>
+        simp [prevExpires] at hx
+        simp only [hx] at hb ⊢
+        exact ⟨_, o.expires, by simp, b, hb, rfl⟩
+
+/-- C08 / C17, `IncreaseAllowance` succeeds exactly when the caller is a current admin, the spender is a validated
+address different from the caller, the expiry that will be stored is not yet reached, and the amount does not
+overflow. -/
+theorem increase_ok_iff (s : Cw1Subkeys.State) (blk : Block) (snd : Addr) (sp : AddrArg) (c : Coin) (e : Option Expiration) :
+    (Cw1Subkeys.execute s blk snd (.increaseAllowance sp c e)).isOk = true ↔
+      s.cfg.isAdmin snd = true ∧ sp.valid = true ∧ sp.text ≠ snd ∧
+      (e.getD (prevExpires (s.allowances.get? sp.text))).isExpired blk = false ∧
+      ∀ held, NativeBalance.find? (liveBal blk (s.allowances.get? sp.text)) c.1 = some held → held + c.2 ≤ U128_MAX := by
+  rw [← incFn_isOk_iff]
+  constructor
+  · intro h
+    cases hr : Cw1Subkeys.execute s blk snd (.increaseAllowance sp c e) with
+    | error e => rw [hr] at h; cases h
+    | ok r =>
+      obtain ⟨s', out⟩ := r
+      have hc := C17.Sk.execute_cases hr
+      simp only at hc
+      obtain ⟨h1, h2, h3, a, ha, _⟩ := hc
+      exact ⟨h1, h2, h3, by rw [ha]; rfl⟩
+  · rintro ⟨h1, h2, h3, h4⟩
+    obtain ⟨a, ha⟩ := (NativeBalance.isOk_iff_exists _).mp h4
+    simp [Cw1Subkeys.execute, Cw1Subkeys.execIncreaseAllowance, h1, h2, h3, ha, check, bind, Except.bind,
+      pure, Except.pure, Res.isOk]
+
+/-- C08, exact effect of `IncreaseAllowance`: for every denomination the spender's allowance afterwards is the live
+part of the old one (the stored balance if unexpired, nothing otherwise) plus the granted coin; its expiry is the
+submitted one, else the stored one; nobody else's allowance, no permission and not the admin configuration change;
+nothing is relayed. -/
+theorem increase_exact {s s' : Cw1Subkeys.State} {blk : Block} {snd : Addr} {sp : AddrArg} {c : Coin}
+    {e : Option Expiration} {out : List CosmosMsg}
+    (h : Cw1Subkeys.execute s blk snd (.increaseAllowance sp c e) = .ok (s', out)) :
+    (∀ d, held s' sp.text d = total (liveBal blk (s.allowances.get? sp.text)) d + (if c.1 = d then c.2 else 0)) ∧
+    (s'.allowances.get? sp.text).map (·.expires) = some (e.getD (prevExpires (s.allowances.get? sp.text))) ∧
+    (∀ y, y ≠ sp.text → s'.allowances.get? y = s.allowances.get? y) ∧
+    s'.permissions = s.permissions ∧ s'.cfg = s.cfg ∧ out = [] := by
+  have hc := C17.Sk.execute_cases h
+  simp only at hc
+  obtain ⟨_, _, _, a, hinc, rfl⟩ := hc
+  refine ⟨fun d => ?_, ?_, fun y hy => AMap.get?_set_ne _ _ _ _ (Ne.symm hy), rfl, rfl, ?_⟩
+  · rw [held_set_eq, incFn_total hinc d]
+  · simp [incFn_expires hinc]
+  · by_cases hne : out = []
+    · exact hne
+    · obtain ⟨msgs, hm⟩ := C07.Sk.only_execute_relays h hne; cases hm
+
+/-- The expiry after a decrease: the submitted one, else the stored one. -/
+theorem decFn_expires {blk : Block} {c : Coin} {e : Option Expiration} {o a : Allowance}
+    (h : decFn blk c e (some o) = .ok a) : a.expires = e.getD o.expires := by
+  unfold decFn at h
+  simp only [Res.bind_ok, Res.pure_ok] at h
+  obtain ⟨_, _, ex, hex, b, hb, rfl⟩ := h
+  cases e with
+  | some e' => simp at hex; obtain ⟨_, rfl⟩ := hex; rfl
+  | none => simp at hex; subst hex; rfl
+
+theorem subSaturating_isOk_iff (b : NativeBalance) (c : Coin) :
+    (NativeBalance.subSaturating b c).isOk = true ↔ ∃ held, NativeBalance.find? b c.1 = some held := by
+  unfold NativeBalance.subSaturating
+  cases hf : NativeBalance.find? b c.1 with
+  | none => simp [Res.isOk]
+  | some held => by_cases hle : held ≤ c.2 <;> simp [hle, Res.isOk]
+
+/-- Exactly when the closure of `DecreaseAllowance` succeeds: the allowance exists and is unexpired, a submitted
+expiry is not yet reached, and the allowance has a coin of the named denomination (whatever the amount). -/
+theorem decFn_isOk_iff (blk : Block) (c : Coin) (e : Option Expiration) (old : Option Allowance) :
+    (decFn blk c e old).isOk = true ↔
+      ∃ o, old = some o ∧ o.expires.isExpired blk = false ∧ (∀ e', e = some e' → e'.isExpired blk = false) ∧
+        ∃ held, NativeBalance.find? o.balance c.1 = some held := by
+  unfold decFn
+  cases old with
+  | none => simp [Res.isOk]
+  | some o =>
+    simp only [Option.some.injEq, exists_eq_left']
+    rw [← subSaturating_isOk_iff]
+    cases hx : o.expires.isExpired blk
+    · cases e with
+      | none =>
+        simp only [check, Bool.not_false, if_true, bind, Except.bind, pure, Except.pure, true_and]
+        cases NativeBalance.subSaturating o.balance c <;> simp [Res.isOk]
+      | some e' =>
+        cases hx' : e'.isExpired blk
+        · simp only [check, Bool.not_false, if_true, bind, Except.bind, pure, Except.pure, true_and]
+          cases NativeBalance.subSaturating o.balance c <;> simp [Res.isOk, hx']
+        · simp [check, hx', bind, Except.bind, Res.isOk]
+    · simp [check, bind, Except.bind, Res.isOk]
+
+/-- C08 / C17, `DecreaseAllowance` succeeds exactly when the caller is a current admin, the spender is a validated
+address different from the caller, the spender has an unexpired allowance containing a coin of the named
+denomination, and a submitted expiry is not yet reached.  Hence a decrease on a missing or expired allowance, or of a
+denomination the allowance lacks, fails. -/
+theorem decrease_ok_iff (s : Cw1Subkeys.State) (blk : Block) (snd : Addr) (sp : AddrArg) (c : Coin) (e : Option Expiration) :
+    (Cw1Subkeys.execute s blk snd (.decreaseAllowance sp c e)).isOk = true ↔
+      s.cfg.isAdmin snd = true ∧ sp.valid = true ∧ sp.text ≠ snd ∧
+      ∃ o, s.allowances.get? sp.text = some o ∧ o.expires.isExpired blk = false ∧
+        (∀ e', e = some e' → e'.isExpired blk = false) ∧ ∃ held, NativeBalance.find? o.balance c.1 = some held := by
+  rw [← decFn_isOk_iff]
+  constructor
+  · intro h
+    cases hr : Cw1Subkeys.execute s blk snd (.decreaseAllowance sp c e) with
+    | error e => rw [hr] at h; cases h
+    | ok r =>
+      obtain ⟨s', out⟩ := r
+      have hc := C17.Sk.execute_cases hr
+      simp only at hc
+      obtain ⟨h1, h2, h3, a, ha, _⟩ := hc
+      exact ⟨h1, h2, h3, by rw [ha]; rfl⟩
+  · rintro ⟨h1, h2, h3, h4⟩
+    obtain ⟨a, ha⟩ := (NativeBalance.isOk_iff_exists _).mp h4
+    simp only [Cw1Subkeys.execute, Cw1Subkeys.execDecreaseAllowance, h1, h2, h3, ha, check, bind, Except.bind,
+      pure, Except.pure, ne_eq, not_false_eq_true, decide_true, if_true]
+    split <;> rfl
+
+/-- C08, the failure cases of `DecreaseAllowance`: no allowance, an expired one, or one without the denomination. -/
+theorem decrease_fails {s : Cw1Subkeys.State} {blk : Block} {snd : Addr} {sp : AddrArg} {c : Coin} {e : Option Expiration}
+    (hbad : ∀ o, s.allowances.get? sp.text = some o →
+      o.expires.isExpired blk = true ∨ NativeBalance.find? o.balance c.1 = none) :
+    ∃ err, Cw1Subkeys.execute s blk snd (.decreaseAllowance sp c e) = .error err := by
+  rw [← NativeBalance.isOk_false_iff_exists]
+  cases hr : (Cw1Subkeys.execute s blk snd (.decreaseAllowance sp c e)).isOk with
+  | false => rfl
+  | true =>
+    obtain ⟨_, _, _, o, ho, hx, _, held, hf⟩ := (decrease_ok_iff s blk snd sp c e).mp hr
+    rcases hbad o ho with h | h
+    · rw [hx] at h; cases h
+    · rw [hf] at h; cases h
+
+/-- C08, exact effect of `DecreaseAllowance` besides the amounts (`decrease_saturates`, `decrease_saturates_exact`):
+the allowance was there and unexpired; afterwards the entry is either gone (it then held nothing) or carries the
+submitted expiry, else the stored one; nobody else's allowance, no permission and not the admin configuration change;
+nothing is relayed. -/
+theorem decrease_exact {s s' : Cw1Subkeys.State} {blk : Block} {snd : Addr} {sp : AddrArg} {c : Coin}
+    {e : Option Expiration} {out : List CosmosMsg}
+    (h : Cw1Subkeys.execute s blk snd (.decreaseAllowance sp c e) = .ok (s', out)) :
+    (∃ o, s.allowances.get? sp.text = some o ∧ o.expires.isExpired blk = false ∧
+      ((s'.allowances.get? sp.text = none ∧ ∀ d, held s' sp.text d = 0) ∨
+       (∃ a', s'.allowances.get? sp.text = some a' ∧ a'.expires = e.getD o.expires ∧ a'.expires.isExpired blk = false))) ∧
+    (∀ y, y ≠ sp.text → s'.allowances.get? y = s.allowances.get? y) ∧
+    s'.permissions = s.permissions ∧ s'.cfg = s.cfg ∧ out = [] := by
+  have hc := C17.Sk.execute_cases h
+  simp only at hc
+  obtain ⟨_, _, _, a, hdec, rfl⟩ := hc
+  obtain ⟨o, ho, hx, hax, _⟩ := decFn_total hdec
+  refine ⟨⟨o, ho, hx, ?_⟩, fun y hy => ?_, rfl, rfl, ?_⟩
+  · by_cases hemp : a.balance.isEmpty = true
+    · left; simp [hemp, held, bal, balOf]
+    · right
+      rw [ho] at hdec
+      exact ⟨a, by simp [hemp], decFn_expires hdec, hax⟩
+  · simp only
+    split
+    · exact AMap.get?_erase_ne _ _ _ (Ne.symm hy)
+    · exact AMap.get?_set_ne _ _ _ _ (Ne.symm hy)
+  · by_cases hne : out = []
+    · exact hne
+    · obtain ⟨msgs, hm⟩ := C07.Sk.only_execute_relays h hne; cases hm
+
+/-! ## Ledgers from arbitrary start states, and the exact ledger -/
+
+/-- Well-formedness is kept by every history from *any* well-formed state (`wf_run` is the instance "from
+instantiation"): this covers migrated / legacy stores that are not outputs of `instantiate`. -/
+theorem wf_run_from {s : Cw1Subkeys.State} (hw : WF s) (ops : List (Block × Addr × Cw1Subkeys.Msg)) :
+    WF (C17.Sk.run s ops) := by
+  induction ops generalizing s with
+  | nil => exact hw
+  | cons op rest ih => exact ih (step_wf hw op.1 op.2.1 op.2.2)
+
+/-- The ledger invariant is kept by every history from any ghost state that satisfies it. -/
+theorem grun_inv {g : Ghost} (hi : GInv g) (ops : List (Block × Addr × Cw1Subkeys.Msg)) : GInv (grun g ops) := by
+  induction ops generalizing g with
+  | nil => exact hi
+  | cons op rest ih => exact ih (gstep_inv hi op)
+
+/-- Ledgers opened on an arbitrary state: what a subkey holds at that moment counts as granted, nothing as spent. -/
+def ghostOf (s : Cw1Subkeys.State) : Ghost := ⟨s, fun x d => held s x d, fun _ _ => 0⟩
+
+/-- C08, the cumulative bound relative to **any** start state (not only `instantiate` outputs — e.g. a migrated
+store): over every history, what a subkey has relayed since plus what it still holds never exceeds what it held at
+the start plus what admins granted it since. -/
+theorem ledger_relative (s : Cw1Subkeys.State) (ops : List (Block × Addr × Cw1Subkeys.Msg)) :
+    GInv (grun (ghostOf s) ops) :=
+  grun_inv (fun x d => by simp [ghostOf]) ops
+
+/-- C08: the headline bound from any start state. -/
+theorem spent_le_granted_relative (s : Cw1Subkeys.State) (ops : List (Block × Addr × Cw1Subkeys.Msg)) (x : Addr) (d : String) :
+    (grun (ghostOf s) ops).spent x d ≤ (grun (ghostOf s) ops).granted x d := by
+  have := ledger_relative s ops x d; omega
+
+/-- Is the stored allowance expired at `blk` (`false` without one)? -/
+def expiredAt (blk : Block) (al : Option Allowance) : Bool :=
+  match al with
+  | some a => a.expires.isExpired blk
+  | none => false
+
+theorem total_liveBal (blk : Block) (al : Option Allowance) (d : String) :
+    total (liveBal blk al) d = if expiredAt blk al = true then 0 else total (balOf al) d := by
+  cases al with
+  | none => simp [liveBal, expiredAt, balOf]
+  | some a => by_cases hx : a.expires.isExpired blk = true <;> simp [liveBal, expiredAt, balOf, hx]
+
+/-- State plus four ghost ledgers: the two of `Ghost` and the two that account for allowance that disappears
+without being spent. -/
+structure Ledger where
+  st : Cw1Subkeys.State
+  /-- Σ of the amounts of all successful `IncreaseAllowance` calls for (subkey, denom) -/
+  granted : Addr → String → Nat
+  /-- Σ of the amounts of denom relayed by the subkey's own successful non-admin `Execute` calls -/
+  spent : Addr → String → Nat
+  /-- Σ over successful `DecreaseAllowance` calls of what they took away (held before − held after) -/
+  revoked : Addr → String → Nat
+  /-- Σ over successful `IncreaseAllowance` calls on an *expired* allowance of the remainder they discarded -/
+  forfeited : Addr → String → Nat
+
+/-- One transaction with the four-column bookkeeping (a failed call changes nothing). -/
+def lstep (l : Ledger) (op : Block × Addr × Cw1Subkeys.Msg) : Ledger :=
+  match Cw1Subkeys.execute l.st op.1 op.2.1 op.2.2 with
+  | .error _ => l
+  | .ok (s', _) =>
+    match op.2.2 with
+    | .increaseAllowance sp c _ =>
+      { l with st := s',
+               granted := fun x d => l.granted x d + (if x = sp.text ∧ c.1 = d then c.2 else 0),
+               forfeited := fun x d => l.forfeited x d +
+                 (if x = sp.text ∧ expiredAt op.1 (l.st.allowances.get? x) = true then held l.st x d else 0) }
+    | .decreaseAllowance sp _ _ =>
+      { l with st := s',
+               revoked := fun x d => l.revoked x d + (if x = sp.text then held l.st x d - held s' x d else 0) }
+    | .execute msgs =>
+      if l.st.cfg.isAdmin op.2.1 then { l with st := s' }
+      else { l with st := s', spent := fun x d => l.spent x d + (if x = op.2.1 then sent msgs d else 0) }
+    | _ => { l with st := s' }
+
+def lrun (l : Ledger) (ops : List (Block × Addr × Cw1Subkeys.Msg)) : Ledger := ops.foldl lstep l
+
+/-- Forgetting the two extra columns. -/
+def Ledger.ghost (l : Ledger) : Ghost := ⟨l.st, l.granted, l.spent⟩
+
+/-- The four-column ledger extends the two-column one: state, `granted` and `spent` are those of `gstep`. -/
+theorem lstep_ghost (l : Ledger) (op : Block × Addr × Cw1Subkeys.Msg) : (lstep l op).ghost = gstep l.ghost op := by
+  obtain ⟨blk, snd, m⟩ := op
+  simp only [lstep, gstep, Ledger.ghost]
+  cases he : Cw1Subkeys.execute l.st blk snd m with
+  | error e => rfl
+  | ok r =>
+    obtain ⟨s', out⟩ := r
+    cases m <;> simp only [] <;> try rfl
+    by_cases ha : l.st.cfg.isAdmin snd = true <;> simp [ha]
+
+theorem lrun_ghost (l : Ledger) (ops : List (Block × Addr × Cw1Subkeys.Msg)) : (lrun l ops).ghost = grun l.ghost ops := by
+  induction ops generalizing l with
+  | nil => rfl
+  | cons op rest ih =>
+    simp only [lrun, grun, List.foldl_cons]
+    have := ih (lstep l op)
+    simp only [lrun, grun] at this
+    rw [this, lstep_ghost]
+
+theorem lrun_st (l : Ledger) (ops : List (Block × Addr × Cw1Subkeys.Msg)) : (lrun l ops).st = C17.Sk.run l.st ops := by
+  have h1 : (lrun l ops).st = (lrun l ops).ghost.st := rfl
+  rw [h1, lrun_ghost, grun_st]; rfl
+
+/-- Exact ledger invariant: for every subkey and denomination, what was granted is accounted for completely — it
+was relayed, or is still held, or was taken back by a `DecreaseAllowance`, or was discarded when an expired allowance
+was restarted by an `IncreaseAllowance`. -/
+def LInv (l : Ledger) : Prop :=
+  ∀ x d, l.spent x d + held l.st x d + l.revoked x d + l.forfeited x d = l.granted x d
+
+theorem lstep_inv {l : Ledger} (hi : LInv l) (op : Block × Addr × Cw1Subkeys.Msg) : LInv (lstep l op) := by
+  obtain ⟨blk, snd, m⟩ := op
+  unfold lstep
+  simp only
+  split
+  · exact hi
+  · rename_i s' out he
+    have hc := C17.Sk.execute_cases he
+    intro x d
+    have hxd := hi x d
+    cases m with
+    | execute msgs =>
+      simp only at hc ⊢
+      cases ha : l.st.cfg.isAdmin snd
+      · simp only [Bool.false_eq_true, if_false]
+        by_cases hx : x = snd
+        · subst hx
+          have := spend_exact ha he d
+          simp only [if_true]; omega
+        · have : held s' x d = held l.st x d := by simp only [held, bal]; rw [hc.2.2.1 x hx]
+          simp only [hx, if_false]; omega
+      · simp only [if_true]
+        rw [hc.2.2.2 ha]; exact hxd
+    | freeze => simp at hc; obtain ⟨_, _, rfl⟩ := hc; exact hxd
+    | updateAdmins a => simp at hc; obtain ⟨_, _, a, _, rfl⟩ := hc; exact hxd
+    | increaseAllowance sp c e =>
+      simp at hc
+      obtain ⟨_, _, _, a, hinc, rfl⟩ := hc
+      simp only
+      by_cases hx : sp.text = x
+      · subst hx
+        rw [held_set_eq, incFn_total hinc d, total_liveBal]
+        simp only [held, bal] at hxd ⊢
+        by_cases hexp : expiredAt blk (l.st.allowances.get? sp.text) = true <;>
+          by_cases hd : c.1 = d <;> simp [hexp, hd] <;> omega
+      · rw [held_set_ne _ _ _ _ _ hx]
+        have h1 : ¬ (x = sp.text ∧ c.1 = d) := fun h => hx h.1.symm
+        have h2 : ¬ (x = sp.text ∧ expiredAt blk (l.st.allowances.get? x) = true) := fun h => hx h.1.symm
+        simp only [h1, h2, if_false]; omega
+    | decreaseAllowance sp c e =>
+      have hds := decrease_saturates he d
+      simp at hc
+      obtain ⟨_, _, _, a, _, hs'⟩ := hc
+      simp only
+      by_cases hx : sp.text = x
+      · subst hx; simp only [if_true]; omega
+      · have : held s' x d = held l.st x d := by
+          rw [hs']
+          simp only [held, bal]
+          split <;> simp [AMap.get?_set_ne _ _ _ _ hx, AMap.get?_erase_ne _ _ _ hx]
+        have h1 : ¬ x = sp.text := fun h => hx h.symm
+        simp only [h1, if_false]; omega
+    | setPermissions sp p => simp at hc; obtain ⟨_, _, _, rfl⟩ := hc; exact hxd
+
+theorem lrun_inv {l : Ledger} (hi : LInv l) (ops : List (Block × Addr × Cw1Subkeys.Msg)) : LInv (lrun l ops) := by
+  induction ops generalizing l with
+  | nil => exact hi
+  | cons op rest ih => exact ih (lstep_inv hi op)
+
+/-- Four-column ledgers opened on an arbitrary state: current holdings count as granted. -/
+def ledgerOf (s : Cw1Subkeys.State) : Ledger := ⟨s, fun x d => held s x d, fun _ _ => 0, fun _ _ => 0, fun _ _ => 0⟩
+
+/-- C08, "exactly … across calls": on every history from **any** state — any interleaving of Increase / Decrease
+(any denom, amount, expiry), Execute calls with any number of bank sends, admin changes and block advances across
+expiries — for every subkey and denomination
+
+  `spent + still held + revoked by Decrease + forfeited at a restart after expiry = held at the start + granted since`.
+
+So the amount relayed is *exactly* what was granted minus what is left, minus what admins took back, minus what
+expired unused and was then overwritten. -/
+theorem ledger_exact_relative (s : Cw1Subkeys.State) (ops : List (Block × Addr × Cw1Subkeys.Msg)) :
+    LInv (lrun (ledgerOf s) ops) :=
+  lrun_inv (fun x d => by simp [ledgerOf]) ops
+
+/-- C08, the exact ledger from instantiation (all columns start at zero). -/
+theorem ledger_exact {m0 : Cw1Subkeys.InstMsg} {s0 : Cw1Subkeys.State} (h0 : Cw1Subkeys.instantiate m0 = .ok s0)
+    (ops : List (Block × Addr × Cw1Subkeys.Msg)) :
+    LInv (lrun ⟨s0, fun _ _ => 0, fun _ _ => 0, fun _ _ => 0, fun _ _ => 0⟩ ops) := by
+  apply lrun_inv
+  simp [Cw1Subkeys.instantiate] at h0
+  obtain ⟨c, _, rfl⟩ := h0
+  intro x d
+  simp [held, bal, balOf]
+
+/-- The exact ledger and the bound of `ledger_invariant` talk about the same `granted` / `spent` columns and the
+same states. -/
+theorem ledger_exact_columns {s0 : Cw1Subkeys.State} (ops : List (Block × Addr × Cw1Subkeys.Msg)) :
+    (lrun ⟨s0, fun _ _ => 0, fun _ _ => 0, fun _ _ => 0, fun _ _ => 0⟩ ops).ghost = grun (ghost0 s0) ops :=
+  lrun_ghost _ ops
+
+/-- C08: what a successful `DecreaseAllowance{spender, (d, amt)}` takes away on a well-formed state is
+`min amt held` of `d` and nothing of any other denomination — so `revoked` is the Σ of those minima. -/
+theorem decrease_revokes_exact {s s' : Cw1Subkeys.State} {blk : Block} {snd : Addr} {sp : AddrArg} {c : Coin}
+    {e : Option Expiration} {out : List CosmosMsg} (hw : WF s)
+    (h : Cw1Subkeys.execute s blk snd (.decreaseAllowance sp c e) = .ok (s', out)) (d : String) :
+    held s sp.text d - held s' sp.text d = if c.1 = d then min c.2 (held s sp.text d) else 0 := by
+  have h1 := decrease_saturates h d
+  by_cases hd : c.1 = d
+  · subst hd
+    have h2 := decrease_saturates_exact hw h
+    simp only [if_true]; omega
+  · simp only [hd, if_false] at h1 ⊢; omega
+
+/-! ## The listing hides expired allowances -/
+
+/-- C08, "queries hide expired allowances", listing side: every entry the paged `AllAllowances` query returns —
+for any cursor and limit — is a stored allowance that is unexpired at the block of the query.  (That no unexpired
+entry is *missing* from the pages is `C20Listings.subkeys_allAllowances_complete`.) -/
+theorem listing_hides_expired (s : Cw1Subkeys.State) (blk : Block) (after : Option String) (limit : Option Nat) :
+    ∀ p ∈ Cw1Subkeys.queryAllAllowances s blk after limit, p ∈ s.allowances ∧ p.2.expires.isExpired blk = false := by
+  intro p hp
+  have := (Paginate.page_sublist _ _ after limit).subset hp
+  simpa [List.mem_filter, Paginate.mem_sortedEntries] using this
+
+/-- The point query on an expired allowance answers the empty default (the non-definitional reading of
+`queries_hide_expired`): it shows no coin and `Never`. -/
+theorem query_expired_is_default {s : Cw1Subkeys.State} {blk : Block} {x : Addr} {a : Allowance}
+    (ha : s.allowances.get? x = some a) (hx : a.expires.isExpired blk = true) :
+    Cw1Subkeys.queryAllowance s blk ⟨true, x⟩ = .ok ⟨[], .never⟩ := by
+  rw [queries_hide_expired, ha]; simp [hx, Allowance.default]
+
 /-! ## non-vacuity -/
 
 open CwPlus.Props.C07 (exState blk50 blk100)
@@ -689,5 +1351,68 @@ def exOps : List (Block × Addr × Cw1Subkeys.Msg) :=
 example : (grun (ghost0 { cfg := ⟨["admin"], true⟩, allowances := [], permissions := [] }) exOps).spent "k" "ua" = 11
     ∧ (grun (ghost0 { cfg := ⟨["admin"], true⟩, allowances := [], permissions := [] }) exOps).granted "k" "ua" = 13
     ∧ held (grun (ghost0 { cfg := ⟨["admin"], true⟩, allowances := [], permissions := [] }) exOps).st "k" "ua" = 0 := by decide
+
+theorem exState_wf : WF exState := by
+  intro x a h
+  simp only [exState, AMap.get?] at h
+  split at h
+  · cases h; show List.Nodup _; decide
+  · cases h
+
+/-- liveness, non-vacuity: the hypotheses of `covered_spend_succeeds` hold of the running example (two bank sends,
+cumulatively the whole `ua` allowance), and the theorem then *produces* the successful outcome -/
+example : ∃ s', Cw1Subkeys.execute exState blk50 "sub"
+      (.execute [.bankSend "x" [("ua", 4)], .bankSend "y" [("ua", 6), ("ub", 1)]]) =
+        .ok (s', [.bankSend "x" [("ua", 4)], .bankSend "y" [("ua", 6), ("ub", 1)]]) ∧
+      (∀ d, held s' "sub" d + sent [.bankSend "x" [("ua", 4)], .bankSend "y" [("ua", 6), ("ub", 1)]] d = held exState "sub" d) ∧
+      (s'.allowances.get? "sub").map (·.expires) = some (.atHeight 100) :=
+  covered_spend_succeeds (a := ⟨[("ua", 10), ("ub", 5)], .atHeight 100⟩) exState_wf (by decide) (by decide) (by decide)
+    (by decide) (by decide)
+    (fun d => by
+      simp only [sent, sentCoins, msgCoins, held, bal, balOf, exState, AMap.get?, if_true]
+      by_cases h1 : "ua" = d
+      · subst h1; decide
+      · by_cases h2 : "ub" = d
+        · subst h2; decide
+        · simp [total, h1, h2])
+/-- `execute_ok_iff_sem` left to right on a failing call: one `ua` too much -/
+example : ¬ ∀ d, sent [.bankSend "x" [("ua", 4)], .bankSend "y" [("ua", 7)]] d ≤ held exState "sub" d := by
+  intro h
+  have := (execute_ok_iff_sem (s := exState) (blk := blk50) (snd := "sub")
+    (msgs := [.bankSend "x" [("ua", 4)], .bankSend "y" [("ua", 7)]]) exState_wf (by decide) (by decide)).mpr
+    ⟨by decide, fun _ => ⟨_, rfl, by decide⟩, h⟩
+  revert this; decide
+/-- a zero coin of an absent denomination is refused although no denomination is overdrawn: positivity cannot be
+dropped from `execute_ok_iff_sem` -/
+example : (Cw1Subkeys.execute exState blk50 "sub" (.execute [.bankSend "x" [("uc", 0)]])).isOk = false := by decide
+/-- `increase_ok_iff` / `decrease_ok_iff` right to left: the guarded calls do succeed -/
+example : (Cw1Subkeys.execute exState blk50 "admin" (.increaseAllowance ⟨true, "sub"⟩ ("ua", 3) none)).isOk = true :=
+  (increase_ok_iff exState blk50 "admin" _ _ _).mpr (by decide)
+example : (Cw1Subkeys.execute exState blk50 "admin" (.decreaseAllowance ⟨true, "sub"⟩ ("ub", 9) (some .never))).isOk = true :=
+  (decrease_ok_iff exState blk50 "admin" _ _ _).mpr ⟨by decide, by decide, by decide, _, rfl, by decide, by decide, 5, by decide⟩
+/-- a decrease of a denomination the allowance lacks, and one on an expired allowance, fail -/
+example : ∃ e, Cw1Subkeys.execute exState blk50 "admin" (.decreaseAllowance ⟨true, "sub"⟩ ("uc", 1) none) = .error e :=
+  decrease_fails (fun o ho => by cases ho; exact Or.inr (by decide))
+example : ∃ e, Cw1Subkeys.execute exState blk100 "admin" (.decreaseAllowance ⟨true, "sub"⟩ ("ua", 1) none) = .error e :=
+  decrease_fails (fun o ho => by cases ho; exact Or.inl (by decide))
+/-- the exact ledger on a run with an expiry: grant 10 (expires at 60), spend 4, restart after expiry with 3
+(6 forfeited), decrease by 2, spend 1: 5 + 0 + 2 + 6 = 13 -/
+def exOps2 : List (Block × Addr × Cw1Subkeys.Msg) :=
+  [(blk50, "admin", .increaseAllowance ⟨true, "k"⟩ ("ua", 10) (some (.atHeight 60))),
+   (blk50, "k", .execute [.bankSend "x" [("ua", 4)]]),
+   (blk100, "admin", .increaseAllowance ⟨true, "k"⟩ ("ua", 3) (some .never)),
+   (blk100, "admin", .decreaseAllowance ⟨true, "k"⟩ ("ua", 2) none),
+   (blk100, "k", .execute [.bankSend "x" [("ua", 1)]])]
+def exLedger : Ledger := lrun ⟨{ cfg := ⟨["admin"], true⟩, allowances := [], permissions := [] },
+  fun _ _ => 0, fun _ _ => 0, fun _ _ => 0, fun _ _ => 0⟩ exOps2
+example : exLedger.granted "k" "ua" = 13 ∧ exLedger.spent "k" "ua" = 5 ∧ held exLedger.st "k" "ua" = 0
+    ∧ exLedger.revoked "k" "ua" = 2 ∧ exLedger.forfeited "k" "ua" = 6 := by decide
+/-- `listing_hides_expired` at work: at height 100 the listing of the running example is empty -/
+example : ∀ p, p ∉ Cw1Subkeys.queryAllAllowances exState blk100 none none := by
+  intro p hp
+  obtain ⟨hm, hx⟩ := listing_hides_expired _ _ _ _ p hp
+  simp [exState] at hm
+  subst hm
+  revert hx; decide
 
 end CwPlus.Props.C08
